@@ -16,6 +16,14 @@
 //!   `tokio::io::duplex` streams whose far end is a real `tonic::transport::Server` connection,
 //!   reached through a cable task the script can cut (`d`); `c` = one unary call through
 //!   `tonic::client::Grpc`.  Virtual time; every op is followed by a quiescence sleep.
+//! * `cls <chain>` — `Status::from_error` on an error whose `source()` chain is built from the
+//!   tokens (`W<id>` user error type, `I.<Kind>` io::Error, `C` tonic::ConnectError, `S<code>`
+//!   Status, `T` TimeoutExpired, `H2.<reason>` h2::Error, `L` a rustls error, `Yh` the error of a
+//!   real hyper HTTP/2 handshake on a closed transport), joined by `>` outermost first.  Observed:
+//!   the code, and the chain as an independent `downcast_ref` walk sees it.
+//! * `e2x <L|E> <t|n> <cause>` — `Endpoint::connect_with_connector[_lazy]` (with / without a
+//!   connect timeout) whose connector fails every attempt with the error `<cause>`; two calls
+//!   (lazy) or the build (eager); observed: code, attempts, and the walk of the error the caller got.
 use crate::common::*;
 use std::collections::VecDeque;
 use std::future::Future;
@@ -288,6 +296,59 @@ pub fn generate(tier: &str, rng: &mut Rng) -> Vec<String> {
             out.push(format!("e2e {} {} {}", m, tok(&outs), tok(&ops)));
         } else {
             out.push(format!("e2n {} {} {}", m, tok(&outs), tok(&ops)));
+        }
+    }
+    // ---- cls / e2x: how the error of a failed attempt is classified, whatever caused it ----
+    let mut leaves: Vec<String> = IO_KINDS.iter().map(|(n, _)| format!("I.{}", n)).collect();
+    for c in 0..=16 {
+        leaves.push(format!("S{}", c));
+    }
+    for r in 0..=14 {
+        leaves.push(format!("H2.{}", r));
+    }
+    for l in ["T", "L", "W9", "Yh"] {
+        leaves.push(l.to_string());
+    }
+    let wrappers = ["W1", "I.Other", "C", "I.NotFound", "I.PermissionDenied", "I.TimedOut"];
+    let depth = if thorough { 3 } else { 2 };
+    let mut mids: Vec<String> = vec![String::new()];
+    let mut layer: Vec<String> = vec![String::new()];
+    for _ in 0..depth {
+        let mut next = Vec::new();
+        for m in &layer {
+            for w in wrappers {
+                next.push(if m.is_empty() { w.to_string() } else { format!("{}>{}", m, w) });
+            }
+        }
+        mids.extend(next.iter().cloned());
+        layer = next;
+    }
+    for m in &mids {
+        for l in &leaves {
+            if l == "Yh" && m.len() > 8 {
+                continue;
+            }
+            out.push(if m.is_empty() { format!("cls {}", l) } else { format!("cls {}>{}", m, l) });
+        }
+    }
+    // the same causes as the error of a scripted connector, through the whole channel stack
+    let e2x_mids: Vec<&String> = mids.iter().filter(|m| thorough || m.matches('>').count() == 0).collect();
+    for m in modes {
+        for t in ["t", "n"] {
+            for mid in &e2x_mids {
+                for l in &leaves {
+                    // the full product only for the causes the reviewers' mutants are about
+                    let io_cause = l.starts_with("I.") || mid.contains("I.");
+                    if !(thorough || mid.is_empty() || io_cause && (t == "n" || l.len() % 2 == 0)) {
+                        continue;
+                    }
+                    if l == "Yh" && !mid.is_empty() {
+                        continue;
+                    }
+                    let cause = if mid.is_empty() { l.clone() } else { format!("{}>{}", mid, l) };
+                    out.push(format!("e2x {} {} {}", m, t, cause));
+                }
+            }
         }
     }
     out
@@ -829,6 +890,271 @@ fn source_chain(e: &dyn std::error::Error) -> String {
     s
 }
 
+// ------------------------------------------------------------------------------------------
+// cls / e2x: error chains
+// ------------------------------------------------------------------------------------------
+
+type BoxError = Box<dyn std::error::Error + Send + Sync + 'static>;
+
+const IO_KINDS: &[(&str, std::io::ErrorKind)] = {
+    use std::io::ErrorKind::*;
+    &[
+        ("NotFound", NotFound),
+        ("PermissionDenied", PermissionDenied),
+        ("ConnectionRefused", ConnectionRefused),
+        ("ConnectionReset", ConnectionReset),
+        ("HostUnreachable", HostUnreachable),
+        ("NetworkUnreachable", NetworkUnreachable),
+        ("ConnectionAborted", ConnectionAborted),
+        ("NotConnected", NotConnected),
+        ("AddrInUse", AddrInUse),
+        ("AddrNotAvailable", AddrNotAvailable),
+        ("NetworkDown", NetworkDown),
+        ("BrokenPipe", BrokenPipe),
+        ("AlreadyExists", AlreadyExists),
+        ("WouldBlock", WouldBlock),
+        ("NotADirectory", NotADirectory),
+        ("IsADirectory", IsADirectory),
+        ("DirectoryNotEmpty", DirectoryNotEmpty),
+        ("ReadOnlyFilesystem", ReadOnlyFilesystem),
+        ("StaleNetworkFileHandle", StaleNetworkFileHandle),
+        ("InvalidInput", InvalidInput),
+        ("InvalidData", InvalidData),
+        ("TimedOut", TimedOut),
+        ("WriteZero", WriteZero),
+        ("StorageFull", StorageFull),
+        ("NotSeekable", NotSeekable),
+        ("QuotaExceeded", QuotaExceeded),
+        ("FileTooLarge", FileTooLarge),
+        ("ResourceBusy", ResourceBusy),
+        ("ExecutableFileBusy", ExecutableFileBusy),
+        ("Deadlock", Deadlock),
+        ("CrossesDevices", CrossesDevices),
+        ("TooManyLinks", TooManyLinks),
+        ("InvalidFilename", InvalidFilename),
+        ("ArgumentListTooLong", ArgumentListTooLong),
+        ("Interrupted", Interrupted),
+        ("Unsupported", Unsupported),
+        ("UnexpectedEof", UnexpectedEof),
+        ("OutOfMemory", OutOfMemory),
+        ("Other", Other),
+    ]
+};
+
+/// A user's own error type, optionally with a source.
+#[derive(Debug)]
+struct Wrap {
+    id: usize,
+    source: Option<BoxError>,
+}
+impl std::fmt::Display for Wrap {
+    fn fmt(&self, f: &mut std::fmt::Formatter<'_>) -> std::fmt::Result {
+        write!(f, "custom error {}", self.id)
+    }
+}
+impl std::error::Error for Wrap {
+    fn source(&self) -> Option<&(dyn std::error::Error + 'static)> {
+        self.source.as_ref().map(|e| &**e as &(dyn std::error::Error + 'static))
+    }
+}
+
+/// The error of a real hyper HTTP/2 client handshake on a transport whose far end is gone.
+async fn real_handshake_error() -> Option<hyper::Error> {
+    let (io, far) = tokio::io::duplex(1024);
+    drop(far);
+    hyper::client::conn::http2::Builder::new(hyper_util::rt::TokioExecutor::new())
+        .handshake::<_, tonic::body::Body>(hyper_util::rt::TokioIo::new(io))
+        .await
+        .err()
+}
+
+/// Build the error whose `source()` walk is the token list (outermost first); `None` = the
+/// tokens do not describe something that can be built (leaf in the middle, `C` with no cause).
+async fn build_chain(toks: &[&str]) -> Option<BoxError> {
+    let mut cur: Option<BoxError> = None;
+    for t in toks.iter().rev() {
+        let inner = cur.take();
+        let next: BoxError = if *t == "C" {
+            Box::new(tonic::ConnectError(inner?))
+        } else if let Some(id) = t.strip_prefix('W') {
+            Box::new(Wrap { id: id.parse().ok()?, source: inner })
+        } else if let Some(k) = t.strip_prefix("I.") {
+            let kind = IO_KINDS.iter().find(|(n, _)| *n == k)?.1;
+            match inner {
+                // io::Error::source() is the source of the wrapped error, not the wrapped error
+                Some(inner) => Box::new(std::io::Error::new(kind, Wrap { id: 0, source: Some(inner) })),
+                None => Box::new(std::io::Error::new(kind, "scripted io error")),
+            }
+        } else if inner.is_some() {
+            return None;
+        } else if *t == "T" {
+            Box::new(tonic::TimeoutExpired(()))
+        } else if *t == "L" {
+            Box::new(tokio_rustls::rustls::Error::General("scripted tls error".into()))
+        } else if *t == "Yh" {
+            Box::new(real_handshake_error().await?)
+        } else if let Some(r) = t.strip_prefix("H2.") {
+            Box::new(h2::Error::from(h2::Reason::from(r.parse::<u32>().ok()?)))
+        } else if let Some(c) = t.strip_prefix('S') {
+            let c: i32 = c.parse().ok()?;
+            if !(0..=16).contains(&c) {
+                return None;
+            }
+            Box::new(tonic::Status::new(tonic::Code::from_i32(c), "scripted status"))
+        } else {
+            return None;
+        };
+        cur = Some(next);
+    }
+    cur
+}
+
+/// The chain as an independent walk over `source()` sees it (by `downcast_ref`).
+fn walk(e: &(dyn std::error::Error + 'static)) -> String {
+    let mut toks: Vec<String> = Vec::new();
+    let mut cur = Some(e);
+    while let Some(x) = cur {
+        let t = if let Some(s) = x.downcast_ref::<tonic::Status>() {
+            format!("S{}", s.code() as i32)
+        } else if x.downcast_ref::<tonic::TimeoutExpired>().is_some() {
+            "T".into()
+        } else if x.downcast_ref::<tonic::ConnectError>().is_some() {
+            "C".into()
+        } else if let Some(h) = x.downcast_ref::<hyper::Error>() {
+            format!("Y.{}{}", h.is_timeout() as u8, h.is_canceled() as u8)
+        } else if let Some(h) = x.downcast_ref::<h2::Error>() {
+            match h.reason() {
+                Some(r) => format!("H2.{}", u32::from(r)),
+                None => "H2.-".into(),
+            }
+        } else if let Some(i) = x.downcast_ref::<std::io::Error>() {
+            format!("I.{:?}", i.kind())
+        } else if x.downcast_ref::<tokio_rustls::rustls::Error>().is_some() {
+            "L".into()
+        } else if x.downcast_ref::<tonic::transport::Error>().is_some() {
+            "X".into()
+        } else if let Some(w) = x.downcast_ref::<Wrap>() {
+            format!("W{}", w.id)
+        } else {
+            "W99".into()
+        };
+        toks.push(t);
+        if toks.len() >= 64 {
+            break;
+        }
+        cur = x.source();
+    }
+    if toks.is_empty() {
+        "-".into()
+    } else {
+        toks.join(">")
+    }
+}
+
+fn run_cls(chain: &str) -> String {
+    let toks: Vec<&str> = chain.split('>').collect();
+    let rt = paused_rt();
+    rt.block_on(async move {
+        match build_chain(&toks).await {
+            None => "bad-case".into(),
+            Some(err) => {
+                let w = walk(&*err);
+                let st = tonic::Status::from_error(err);
+                format!("code={} walk={}", st.code() as i32, w)
+            }
+        }
+    })
+}
+
+#[derive(Clone)]
+struct FailConnector {
+    cause: Arc<Vec<String>>,
+    attempts: Arc<std::sync::atomic::AtomicUsize>,
+}
+
+impl Service<http::Uri> for FailConnector {
+    type Response = hyper_util::rt::TokioIo<tokio::io::DuplexStream>;
+    type Error = BoxError;
+    type Future = Pin<Box<dyn Future<Output = Result<Self::Response, Self::Error>> + Send>>;
+    fn poll_ready(&mut self, _cx: &mut Context<'_>) -> Poll<Result<(), Self::Error>> {
+        Poll::Ready(Ok(()))
+    }
+    fn call(&mut self, _uri: http::Uri) -> Self::Future {
+        self.attempts.fetch_add(1, std::sync::atomic::Ordering::SeqCst);
+        let cause = self.cause.clone();
+        Box::pin(async move {
+            let toks: Vec<&str> = cause.iter().map(|s| s.as_str()).collect();
+            Err(build_chain(&toks).await.expect("checked before"))
+        })
+    }
+}
+
+fn run_e2x(lazy: bool, with_timeout: bool, cause: &str) -> String {
+    let rt = paused_rt();
+    let toks: Vec<String> = cause.split('>').map(|s| s.to_string()).collect();
+    rt.block_on(async move {
+        {
+            let t: Vec<&str> = toks.iter().map(|s| s.as_str()).collect();
+            if build_chain(&t).await.is_none() {
+                return "bad-case".to_string();
+            }
+        }
+        let attempts = Arc::new(std::sync::atomic::AtomicUsize::new(0));
+        let connector = FailConnector { cause: Arc::new(toks), attempts: attempts.clone() };
+        let n = || attempts.load(std::sync::atomic::Ordering::SeqCst);
+        let endpoint = tonic::transport::Endpoint::from_static("http://verif.invalid:50051");
+        let endpoint = if with_timeout { endpoint.connect_timeout(Duration::from_secs(3)) } else { endpoint };
+        let mut out: Vec<String> = Vec::new();
+        let channel = if lazy {
+            let ch = endpoint.connect_with_connector_lazy(connector);
+            tokio::time::sleep(QUIESCE).await;
+            out.push(format!("build:ok:a{}", n()));
+            ch
+        } else {
+            match tokio::time::timeout(WATCHDOG, endpoint.connect_with_connector(connector)).await {
+                Err(_) => return format!("build:hang:a{}", n()),
+                Ok(Ok(_)) => return format!("build:ok:a{}", n()),
+                Ok(Err(e)) => {
+                    let w = walk(&e);
+                    let st = tonic::Status::from_error(Box::new(e));
+                    return format!("build:err{}:a{}:walk={}", st.code() as i32, n(), w);
+                }
+            }
+        };
+        let mut client = tonic::client::Grpc::new(channel);
+        for _ in 0..2 {
+            let fut = async {
+                client.ready().await.map_err(|e| {
+                    let w = walk(&e);
+                    (tonic::Status::from_error(Box::new(e)), w)
+                })?;
+                let path = http::uri::PathAndQuery::from_static("/verif.WhoAmI/Who");
+                client
+                    .unary::<Vec<u8>, Vec<u8>, _>(tonic::Request::new(b"hi".to_vec()), path, raw::RawCodec)
+                    .await
+                    .map_err(|st| {
+                        let w = match std::error::Error::source(&st) {
+                            Some(s) => walk(s),
+                            None => "-".into(),
+                        };
+                        (st, w)
+                    })
+            };
+            let r = tokio::time::timeout(WATCHDOG, fut).await;
+            tokio::time::sleep(QUIESCE).await;
+            match r {
+                Err(_) => {
+                    out.push(format!("c:hang:a{}", n()));
+                    break;
+                }
+                Ok(Ok(_)) => out.push(format!("c:garbled:a{}", n())),
+                Ok(Err((st, w))) => out.push(format!("c:err{}:a{}:walk={}", st.code() as i32, n(), w)),
+            }
+        }
+        out.join(" ")
+    })
+}
+
 pub fn execute(case: &str) -> String {
     let t: Vec<&str> = case.split(' ').collect();
     match t.as_slice() {
@@ -839,6 +1165,8 @@ pub fn execute(case: &str) -> String {
         },
         ["e2e", m, outs, ops] if *m == "L" || *m == "E" => run_e2e(*m == "L", outs, ops, true),
         ["e2n", m, outs, ops] if *m == "L" || *m == "E" => run_e2e(*m == "L", outs, ops, false),
+        ["cls", chain] => run_cls(chain),
+        ["e2x", m, t, cause] if (*m == "L" || *m == "E") && (*t == "t" || *t == "n") => run_e2x(*m == "L", *t == "t", cause),
         _ => "bad-case".into(),
     }
 }
